@@ -5,11 +5,14 @@ ASSUME AllElemOK
 ASSUME AbbrevOnce
 \* the table names every operation once and every code once
 ASSUME \A i, j \in 1..Len(OpTable) : i # j => OpTable[i].code # OpTable[j].code /\ OpTable[i].atom # OpTable[j].atom
+ASSUME PrintT(<<"TYPEDOPS", OperandsReported, TwinsAgree>>)
+ASSUME \A i, j \in 1..Len(TypedOps) : i # j => TypedOps[i].code # TypedOps[j].code /\ TypedOps[i].atom # TypedOps[j].atom
 ASSUME LET es == SetToSeq(Exprs) rs == SetToSeq(RefLists) IN
        ndJsonSerialize(OutFile,
           [j \in 1..Len(es) |-> [kind |-> "expr", ops |-> es[j], vals |-> [i \in 1..Len(es[j]) |-> Values(es[j][i])]]]
           \* every operation of the table on its own, with its own operands
           \o [j \in 1..Len(OpTable) |-> [kind |-> "sweep", ops |-> <<OpTable[j]>>, vals |-> <<Values(OpTable[j])>>]]
+          \o [j \in 1..Len(TypedOps) |-> [kind |-> "typed", op |-> TypedOps[j], branch |-> OpBranch(TypedOps[j].atom)]]
           \o [j \in 1..Len(LocAttrs) |-> [kind |-> "locattr", at |-> LocAttrs[j].at, code |-> LocAttrs[j].code]]
           \o [j \in 1..Len(rs) |-> [kind |-> "abbrev", refs |-> rs[j], distinct |-> Distinct(rs[j], {})]])
 =============================================================================
